@@ -7,7 +7,7 @@ DEFAULT_WEIGHTS = {
     "put_new": 10, "put_same": 3, "put_reser": 2, "put_change": 6, "put_revert": 3, "put_invalid": 3,
     "put_cond": 3, "put_uidconflict": 2, "put_uidchange": 2, "post": 2, "delete": 5, "delete_missing": 1, "delete_cond_stale": 1,
     "mkcol_new": 1.2, "mkcol_existing": 1, "delete_col": 0.8, "proppatch": 2, "read": 4, "restart": 0.5,
-    "put_missing_col": 0.5, "put_nouid": 0.5, "put_moved": 0, "put_swap": 0, "put_reserved": 0.7, "locked_writes": 0,
+    "put_missing_col": 0.5, "put_nouid": 0.5, "put_moved": 0, "put_swap": 0, "put_reserved": 0.7, "locked_writes": 0, "control_dir": 0.5,
 }
 
 # names for C01-class histories: URL-hostile but not URL-structural
@@ -290,7 +290,7 @@ class Driver:
         col = self.pick_col()
         if col is None:
             return None
-        name = self.rng.choice([".xandikos", ".xandikos", ".git", ".gitignore", ".xandikos.tmp"])
+        name = self.rng.choice([".xandikos", ".xandikos", ".git", ".gitignore", ".xandikos.tmp", ".GIT", ".Git"])
         body = self.rng.choice([b"[DEFAULT]\ntype = addressbook\ndisplayname = hijacked\n", b"[DEFAULT]\ntype = calendar\n", b"just text " + self.w.new_token().encode(), b""])
         ct = self.rng.choice(["text/plain", "application/octet-stream", "text/calendar"])
         w = self.w
@@ -298,6 +298,35 @@ class Driver:
         if W.World.success(s.eff):
             # self-consistency: what was acknowledged must be readable and listed like any other member
             w._apply_put(col, name, W.ctype_for(name), body, None, None, r.header("ETag"))
+        w.notify(s, r)
+        if self.rng.random() < 0.4:
+            # ... and a DELETE on such a name must not remove the store's own file
+            w.delete(col.path, name)
+        return [col.path]
+
+    def op_control_dir(self):
+        """requests below the control directory of a git store: it is not part of the DAV namespace,
+        nothing there may be served as a collection, written or removed"""
+        col = self.pick_col()
+        if col is None:
+            return None
+        w, rng = self.w, self.rng
+        base = w.url(col.path) + rng.choice([".git/", ".git/", ".git", ".GIT/"])
+        k = rng.random()
+        tok = w.new_token()
+        if k < 0.3:
+            nm = "ctl-%s.ics" % tok
+            s, r = w.call("ctl:put", "PUT", base.rstrip("/") + "/" + nm, [("Content-Type", "text/calendar")], gen.ical(rng, "ctl-" + tok, tok, rich=False))
+        elif k < 0.5 and col.members:
+            s, r = w.call("ctl:delete-member", "DELETE", base.rstrip("/") + "/" + gen.quote_name(rng.choice(sorted(col.members))), [], None)
+        elif k < 0.65:
+            s, r = w.call("ctl:delete", "DELETE", base, [], None)
+        elif k < 0.8:
+            s, r = w.call("ctl:mkcol", "MKCOL", base.rstrip("/") + "/sub%s/" % tok, [], None)
+        elif k < 0.9:
+            s, r = w.call("ctl:propfind", "PROPFIND", base, [("Depth", "1"), X.XML_CT], X.propfind([X.P_ETAG, X.P_RESOURCETYPE]))
+        else:
+            s, r = w.call("ctl:proppatch", "PROPPATCH", base, [X.XML_CT], X.proppatch(sets=[(X.P_DISPLAYNAME, "ctl " + tok)]))
         w.notify(s, r)
         return [col.path]
 
